@@ -1063,14 +1063,14 @@ where
         info: MessageInfo,
         msg: Vec<u8>,
     ) -> AnyResult<Response<ExecC>> {
-        Self::verify_response(self.with_storage(
+        self.with_storage(
             api,
             storage,
             router,
             block,
             address,
-            |contract, deps, env| contract.execute(deps, env, info, msg),
-        )?)
+            |contract, deps, env| Self::verify_response(contract.execute(deps, env, info, msg)?),
+        )
     }
 
     /// Executes contract's `instantiate` entry-point.
@@ -1084,14 +1084,16 @@ where
         info: MessageInfo,
         msg: Vec<u8>,
     ) -> AnyResult<Response<ExecC>> {
-        Self::verify_response(self.with_storage(
+        self.with_storage(
             api,
             storage,
             router,
             block,
             address,
-            |contract, deps, env| contract.instantiate(deps, env, info, msg),
-        )?)
+            |contract, deps, env| {
+                Self::verify_response(contract.instantiate(deps, env, info, msg)?)
+            },
+        )
     }
 
     /// Executes contract's `reply` entry-point.
@@ -1104,14 +1106,14 @@ where
         block: &BlockInfo,
         reply: Reply,
     ) -> AnyResult<Response<ExecC>> {
-        Self::verify_response(self.with_storage(
+        self.with_storage(
             api,
             storage,
             router,
             block,
             address,
-            |contract, deps, env| contract.reply(deps, env, reply),
-        )?)
+            |contract, deps, env| Self::verify_response(contract.reply(deps, env, reply)?),
+        )
     }
 
     /// Executes contract's `sudo` entry-point.
@@ -1124,14 +1126,14 @@ where
         block: &BlockInfo,
         msg: Vec<u8>,
     ) -> AnyResult<Response<ExecC>> {
-        Self::verify_response(self.with_storage(
+        self.with_storage(
             api,
             storage,
             router,
             block,
             address,
-            |contract, deps, env| contract.sudo(deps, env, msg),
-        )?)
+            |contract, deps, env| Self::verify_response(contract.sudo(deps, env, msg)?),
+        )
     }
 
     /// Executes contract's `migrate` entry-point.
@@ -1144,14 +1146,14 @@ where
         block: &BlockInfo,
         msg: Vec<u8>,
     ) -> AnyResult<Response<ExecC>> {
-        Self::verify_response(self.with_storage(
+        self.with_storage(
             api,
             storage,
             router,
             block,
             address,
-            |contract, deps, env| contract.migrate(deps, env, msg),
-        )?)
+            |contract, deps, env| Self::verify_response(contract.migrate(deps, env, msg)?),
+        )
     }
 
     fn get_env<T: Into<Addr>>(&self, address: T, block: &BlockInfo) -> Env {
